@@ -102,16 +102,23 @@ def _run_one(sub: Sub, res: ShardResult, spec, known):
         raise
 
 
+def _spent(t0, c0):
+    """Budget clock: CPU time of this shard, so that a loaded machine does not silently shrink the
+    exploration; wall time only counts at a quarter (hangs / waiting on children still end the shard)."""
+    return max(time.process_time() - c0, (time.time() - t0) / 4.0)
+
+
 def run_enum_shard(sub: Sub, tier, shard, nshards, known, seed):
     res = ShardResult()
     t0 = time.time()
+    c0 = time.process_time()
     budget = sub.budget_s[tier] * BUDGET_SCALE
     cap = None
     try:
         for i, spec in enumerate(sub.cases(tier)):
             if i % nshards != shard:
                 continue
-            if time.time() - t0 > budget:
+            if _spent(t0, c0) > budget:
                 res.skipped_budget += 1
                 continue
             if cap and res.evaluations >= cap:
@@ -148,6 +155,7 @@ def run_hyp_shard(sub: Sub, tier, shard, nshards, known, seed):
 
     res = ShardResult()
     t0 = time.time()
+    c0 = time.process_time()
     total = sub.n[tier]
     n = max(1, math.ceil(total / nshards))
     budget = sub.budget_s[tier] * BUDGET_SCALE
@@ -171,7 +179,7 @@ def run_hyp_shard(sub: Sub, tier, shard, nshards, known, seed):
     def test(spec):
         now = time.time()
         if state["first_fail"] is None:
-            if now - t0 > budget:
+            if _spent(t0, c0) > budget:
                 res.skipped_budget += 1
                 return
             _record(sub, res, spec)
